@@ -31,6 +31,10 @@ class Refused(Exception):
     pass
 
 
+class _Return(Exception):
+    """control flow of the interpreted method: `return`"""
+
+
 class ModelError(Exception):
     """the method does something the model cannot interpret"""
 
@@ -48,6 +52,13 @@ class GridModel:
         self.contents = []
         self.nbuf = 0
         self.events = []
+        self.alloc = []       # allocation expression of every buffer
+
+    def new_buffer(self, how):
+        self.contents.append(dict(cur=False, saved=False, layout=None))
+        self.alloc.append(how)
+        self.nbuf = len(self.contents)
+        return ("buf", self.nbuf - 1)
 
     def key(self):
         def norm(v):
@@ -57,16 +68,74 @@ class GridModel:
 
     def clone(self):
         g = GridModel()
-        g.a = dict(self.a)
+        g.a = {k: (list(v) if isinstance(v, list) else v) for k, v in self.a.items()}
         g.contents = [dict(c) for c in self.contents]
         g.nbuf = self.nbuf
+        g.alloc = list(self.alloc)
         return g
+
+
+def _guards(node, fn):
+    from ..core import guards_of
+    return guards_of(node)
 
 
 class Exec:
     def __init__(self, cls: ast.ClassDef, chk, rel):
         self.cls, self.chk, self.rel = cls, chk, rel
-        self.methods = {m.name: m for m in cls.body if isinstance(m, ast.FunctionDef)}
+        self.methods = {}
+        for m in cls.body:
+            if isinstance(m, ast.FunctionDef):
+                self.methods.setdefault(m.name, m)
+        self.class_text = "\n".join(src(m) for m in self.methods.values()).replace(" ", "")
+
+    def role_needed(self, L, I, g):
+        """is `self.L[self.I]` evaluated by a method on a path the flags of this state allow?  (an index beyond the collection is
+        harmless while the only uses are behind `assert self.hasSaveMemory`)"""
+        needle = f"self.{L}[self.{I}]"
+        for m in self.methods.values():
+            if m.name == "__init__" or needle not in src(m).replace(" ", ""):
+                continue
+            guarded = any(isinstance(st, ast.Assert) and "hasSaveMemory" in src(st.test) for st in m.body) or \
+                all(any("hasSaveMemory" in src(t) for t, pol, kind in _guards(n, m)) for n in ast.walk(m)
+                    if isinstance(n, ast.Subscript) and src(n).replace(" ", "") == needle)
+            if not guarded or g.a.get("hasSaveMemory") is True:
+                return True
+        return False
+
+    def current_layout(self, g):
+        """what the public `currentLayout` property answers in this state"""
+        m = self.methods.get("currentLayout")
+        rets = [n for n in ast.walk(m) if isinstance(n, ast.Return) and n.value is not None] if m is not None else []
+        if len(rets) == 1:
+            try:
+                return self.ev(rets[0].value, g, {})
+            except (AttrErr, ModelError):
+                return None
+        return g.a.get("_current_layout_name")
+
+    def data_buffer(self, g):
+        """(expression, buffer) that setLayout hands to the layout manager as the source of the next layout change"""
+        m = self.methods.get("setLayout")
+        if m is None:
+            return None
+        calls = [c for c in ast.walk(m) if isinstance(c, ast.Call) and isinstance(c.func, ast.Attribute) and c.func.attr == "transpose"
+                 and src(c.func.value) == "self._layout_manager"]
+        srcs = set()
+        for c in calls:
+            e = c.args[0] if c.args else next((k.value for k in c.keywords if k.arg == "source"), None)
+            if e is not None:
+                srcs.add(src(e))
+        if len(srcs) != 1:
+            return None
+        e = ast.parse(next(iter(srcs)), mode="eval").body
+        try:
+            v = self.ev(e, g, {})
+        except (AttrErr, ModelError):
+            return None
+        if isinstance(v, tuple) and v and v[0] == "buf":
+            return (src(e), v[1])
+        return None
 
     # ---------------------------------------------------------------- expressions
     def ev(self, e, g: GridModel, loc):
@@ -88,19 +157,23 @@ class Exec:
                 return v
             base = self.ev(e.value, g, loc)
             if isinstance(base, tuple) and base and base[0] == "layout":
+                if e.attr == "name":
+                    return base[1]
                 return ("lattr", base[1], e.attr)
             if isinstance(base, tuple) and base and base[0] == "view" and e.attr in ("dtype",):
                 return ("opaque", "dtype")
             return ("opaque", src(e))
         if isinstance(e, ast.Subscript):
             base = self.ev(e.value, g, loc)
-            if isinstance(base, tuple) and base and base[0] == "bufs":
+            if isinstance(base, (list, tuple)) and base and all(isinstance(x, tuple) and x and x[0] == "buf" for x in base) \
+                    and not isinstance(e.slice, ast.Slice):
+                # a collection of the grid's buffers, subscripted by a role index
                 i = self.ev(e.slice, g, loc)
-                if not isinstance(i, int):
+                if not isinstance(i, int) or isinstance(i, bool):
                     raise ModelError(f"buffer index `{src(e.slice)}` is not a concrete index")
-                if not (0 <= i < g.nbuf):
-                    raise AttrErr(f"_my_data[{i}] (only {g.nbuf} buffers)")
-                return ("buf", i)
+                if not (-len(base) <= i < len(base)):
+                    raise AttrErr(f"{src(e.value).replace('self.', '')}[{i}] (only {len(base)} buffers)")
+                return base[i]
             if isinstance(base, tuple) and base and base[0] in ("buf", "view", "prefix"):
                 # slicing: [:n] keeps the buffer; remember an explicit extent
                 if isinstance(e.slice, ast.Slice) and e.slice.upper is not None and e.slice.lower is None:
@@ -163,8 +236,8 @@ class Exec:
             if name == "pop" and isinstance(f, ast.Attribute) and src(f.value) == "kwargs":
                 k = self.ev(e.args[0], g, loc)
                 return loc.get("kw:" + str(k), self.ev(e.args[1], g, loc) if len(e.args) > 1 else ("opaque", k))
-            if name in ("empty", "zeros", "ones", "empty_like"):
-                return ("newarray", src(e))
+            if name in ("empty", "zeros", "ones", "empty_like", "zeros_like", "full"):
+                return g.new_buffer(src(e))
             if name in ("Get_rank", "Get_size", "len"):
                 return ("opaque", name)
             return ("opaque", src(e))
@@ -206,10 +279,13 @@ class Exec:
         return ("opaque", src(e))
 
     # ---------------------------------------------------------------- statements
-    def run(self, mname, g: GridModel, args: dict):
+    def run(self, mname, g: GridModel, args: dict, depth=0):
         m = self.methods[mname]
         loc = dict(args)
-        self.block(m.body, g, loc)
+        try:
+            self.block(m.body, g, loc)
+        except _Return:
+            pass
 
     def block(self, stmts, g, loc):
         for st in stmts:
@@ -257,35 +333,65 @@ class Exec:
                     self.store(g, tgt, self.ev(c.args[1], g, loc), st)
                     return
                 raise ModelError(f"store target not modelled: `{src(c.args[0])[:60]}`")
+            if isinstance(f, ast.Attribute) and isinstance(f.value, ast.Name) and f.value.id == "self" and f.attr in self.methods \
+                    and f.attr != "__init__":
+                # another method of the grid: its body is interpreted in place
+                callee = self.methods[f.attr]
+                params = [a.arg for a in callee.args.args if a.arg != "self"]
+                if any(isinstance(a, ast.Starred) for a in c.args) or len(c.args) > len(params) or callee.args.vararg or callee.args.kwarg:
+                    raise ModelError(f"call `{src(st)[:60]}` of a method of the grid not modelled")
+                bound = {p_: self.ev(a, g, loc) for p_, a in zip(params, c.args)}
+                for k in c.keywords:
+                    if k.arg not in params:
+                        raise ModelError(f"call `{src(st)[:60]}` of a method of the grid not modelled")
+                    bound[k.arg] = self.ev(k.value, g, loc)
+                dflt = dict(zip(params[len(params) - len(callee.args.defaults):], callee.args.defaults))
+                for p_ in params:
+                    if p_ not in bound:
+                        if p_ not in dflt:
+                            raise ModelError(f"call `{src(st)[:60]}`: argument `{p_}` missing")
+                        bound[p_] = self.ev(dflt[p_], g, {})
+                self._depth = getattr(self, "_depth", 0) + 1
+                try:
+                    if self._depth > 4:
+                        raise ModelError(f"call `{src(st)[:60]}`: methods of the grid call one another too deeply")
+                    self.run(f.attr, g, bound)
+                finally:
+                    self._depth -= 1
+                return
             # any other call that is handed a buffer of the grid (or the view) may write it: not modelled
             touched = [x for x in list(c.args) + [k.value for k in c.keywords] + ([f.value] if isinstance(f, ast.Attribute) else [])
                        if any(isinstance(n, ast.Attribute) and src(n) in ("self._my_data", "self._f") for n in ast.walk(x))]
             if touched:
                 raise ModelError(f"call `{src(st)[:70]}` receives a buffer of the grid: its effect on the buffer is not modelled")
             return
-        if isinstance(st, (ast.Pass, ast.Return)):
+        if isinstance(st, ast.Pass):
             return
+        if isinstance(st, ast.Return):
+            raise _Return()
         raise ModelError(f"statement kind not modelled: `{src(st)[:60]}`")
 
     def assign(self, t, val, st, g, loc):
         if isinstance(t, ast.Name):
             loc[t.id] = val
         elif isinstance(t, ast.Attribute) and isinstance(t.value, ast.Name) and t.value.id == "self":
-            if t.attr == "_my_data":
-                if not isinstance(val, list):
-                    raise ModelError("_my_data is not a literal list of buffers")
-                g.nbuf = len(val)
-                g.contents = [dict(cur=False, saved=False, layout=None) for _ in val]
-                g.a["_my_data"] = ("bufs",)
-                g.a["<alloc>"] = tuple(v[1] if isinstance(v, tuple) else repr(v) for v in val)
-            else:
-                g.a[t.attr] = val
+            g.a[t.attr] = list(val) if isinstance(val, list) else val
         elif isinstance(t, ast.Tuple):
             if not (isinstance(val, tuple) and len(val) == len(t.elts)):
                 raise ModelError(f"tuple assignment not modelled: `{src(st)[:60]}`")
             for e, v in zip(t.elts, val):
                 self.assign(e, v, st, g, loc)
         elif isinstance(t, ast.Subscript):
+            if isinstance(t.value, ast.Attribute) and isinstance(t.value.value, ast.Name) and t.value.value.id == "self" \
+                    and isinstance(g.a.get(t.value.attr), list) and isinstance(val, tuple) and val and val[0] == "buf":
+                # a buffer reference stored into the collection of buffers (the roles are exchanged by exchanging list entries)
+                i = self.ev(t.slice, g, loc)
+                lst = list(g.a[t.value.attr])
+                if not isinstance(i, int) or isinstance(i, bool) or not (-len(lst) <= i < len(lst)):
+                    raise ModelError(f"buffer index `{src(t.slice)}` is not a concrete valid index")
+                lst[i] = val
+                g.a[t.value.attr] = lst
+                return
             tgt = self.ev(t, g, loc)
             if isinstance(tgt, tuple) and tgt[0] in ("prefix", "buf", "view"):
                 self.store(g, tgt, val, st)
@@ -339,25 +445,52 @@ class Exec:
 
 
 # --------------------------------------------------------------------------
-def check_state(g: GridModel, spec, has_save):
+def roles(ex, g):
+    """the expressions through which the methods reach the grid's buffers, with the buffer each denotes in this state:
+    `self.X` (an attribute bound to a buffer) and `self.L[self.I]` (a collection of buffers subscripted by an index attribute, where the
+    class is written that way).  [(text, buffer number)]"""
+    out = []
+    text = ex.class_text
+    for k, v in sorted(g.a.items()):
+        if isinstance(v, tuple) and v and v[0] == "buf":
+            out.append((f"self.{k}", v[1]))
+    lists = [k for k, v in g.a.items() if isinstance(v, list) and v and all(isinstance(x, tuple) and x and x[0] == "buf" for x in v)]
+    ints = [k for k, v in g.a.items() if isinstance(v, int) and not isinstance(v, bool)]
+    for L in sorted(lists):
+        for I in sorted(ints):
+            if f"self.{L}[self.{I}]" in text:
+                i = g.a[I]
+                if -len(g.a[L]) <= i < len(g.a[L]):
+                    out.append((f"self.{L}[self.{I}]", g.a[L][i][1]))
+                elif ex.role_needed(L, I, g):
+                    out.append((f"self.{L}[self.{I}]", None))
+    return out
+
+
+def check_state(g: GridModel, spec, has_save, ex=None):
     """invariants after every operation -> list of (rule, msg)"""
     bad = []
     a = g.a
-    try:
-        idx = [a["_dataIdx"], a["_buffIdx"]] + ([a["_saveIdx"]] if has_save else [])
-    except KeyError as e:
-        return [("T1-index-permutation", f"index attribute {e} undefined")]
-    if len(set(idx)) != len(idx) or not all(isinstance(i, int) and 0 <= i < g.nbuf for i in idx):
-        bad.append(("T1-index-permutation", f"(_dataIdx,_buffIdx,_saveIdx)={idx} is not a set of distinct valid buffer indices"))
-        return bad
+    rl = roles(ex, g) if ex is not None else []
+    broken = [t for t, b in rl if b is None]
+    if broken:
+        return [("T1-index-permutation", f"`{broken[0]}` does not denote one of the grid's buffers")]
+    seen = {}
+    for t, b in rl:
+        if b in seen:
+            bad.append(("T1-index-permutation", f"`{seen[b]}` and `{t}` denote the same buffer: the data, scratch and save roles must be "
+                        "played by distinct buffers"))
+            return bad
+        seen[b] = t
     f = a.get("_f")
     lay = a.get("_layout")
-    cur = a.get("_current_layout_name")
+    cur = ex.current_layout(g) if ex is not None else a.get("_current_layout_name")
     if not (isinstance(f, tuple) and f[0] == "view"):
         bad.append(("T3-view-coherence", f"_f is not a view of a data buffer: {f!r}"))
         return bad
-    if f[1] != a["_dataIdx"]:
-        bad.append(("T3-view-coherence", f"_f views buffer {f[1]} but _dataIdx is {a['_dataIdx']}"))
+    src_buf = ex.data_buffer(g) if ex is not None else None
+    if src_buf is not None and f[1] != src_buf[1]:
+        bad.append(("T3-view-coherence", f"_f views buffer {f[1]} but the next layout change reads the field from `{src_buf[0]}` = buffer {src_buf[1]}"))
     if not (isinstance(lay, tuple) and lay[0] == "layout" and lay[1] == cur and f[2] == cur):
         bad.append(("T3-view-coherence", f"_f is shaped for layout `{f[2]}`, _layout is `{lay}`, currentLayout is `{cur}`"))
     c = g.contents[f[1]]
@@ -367,13 +500,14 @@ def check_state(g: GridModel, spec, has_save):
     if cur != spec["layout"]:
         bad.append(("T2-visible-field", f"currentLayout is `{cur}` but the operations put the array in `{spec['layout']}`"))
     if has_save and spec["saved"] is not None:
-        sc = g.contents[a["_saveIdx"]]
-        if not sc["saved"] or sc["layout"] != spec["saved"]:
-            bad.append(("T4-save-protected", "a save is held but the save buffer no longer contains the saved snapshot "
-                        f"(saved={sc['saved']} layout={sc['layout']}, expected layout {spec['saved']})"))
-        if a.get("notSaved") is not False:
+        holders = [i for i, sc in enumerate(g.contents) if sc["saved"] and sc["layout"] == spec["saved"] and i != f[1]]
+        if not holders:
+            sv = [(i, sc["saved"], sc["layout"]) for i, sc in enumerate(g.contents) if i != f[1]]
+            bad.append(("T4-save-protected", "a save is held but no buffer other than the visible one contains the saved snapshot any more "
+                        f"(other buffers (number, saved, layout): {sv}, expected layout {spec['saved']})"))
+        if "notSaved" in a and a["notSaved"] is not False:
             bad.append(("T4-save-protected", "a save is held but notSaved is not False"))
-    if has_save and spec["saved"] is None and a.get("notSaved") is not True:
+    if has_save and spec["saved"] is None and "notSaved" in a and a["notSaved"] is not True:
         bad.append(("T4-save-protected", "no save is held but notSaved is not True"))
     return bad
 
@@ -400,7 +534,7 @@ def explore(chk, ex: Exec, has_save: bool):
     seen = {}
     todo = [(g0, spec0, ())]
     transitions = 0
-    bad0 = check_state(g0, spec0, has_save)
+    bad0 = check_state(g0, spec0, has_save, ex)
     for rule, msg in bad0:
         chk.ob(rule, init, "Grid.__init__", False, msg, file=rel, func="Grid.__init__")
     results = {}     # (rule, method) -> list of (ok, msg, history)
@@ -409,7 +543,7 @@ def explore(chk, ex: Exec, has_save: bool):
         results.setdefault((rule, method), []).append((ok, msg, hist))
 
     while todo:
-        g, spec, hist = todo.pop()
+        g, spec, hist = todo.pop(0)          # breadth first: the histories reported are the shortest
         k = (g.key(), tuple(sorted(spec.items(), key=str)))
         if k in seen:
             continue
@@ -490,7 +624,7 @@ def explore(chk, ex: Exec, has_save: bool):
                 continue
             for ev in g2.events:
                 note("T7-transpose-call", op, False, f"{ev[0]}: {ev[1]}", h2)
-            bad = check_state(g2, spec2, has_save)
+            bad = check_state(g2, spec2, has_save, ex)
             rules = {"T1-index-permutation", "T2-visible-field", "T3-view-coherence", "T4-save-protected"}
             for rule, msg in bad:
                 note(rule, meth if rule != "T2-visible-field" or op != "write" else op, False, msg, h2)
@@ -503,24 +637,48 @@ def explore(chk, ex: Exec, has_save: bool):
 
 
 def run_init(ex: Exec, init, g, args):
+    """interpret the constructor: every statement the model can read is applied; a statement it cannot read is skipped when nothing the
+    typestate methods use depends on it (else the model is not applicable: ModelError)"""
     loc = dict(args)
+    skipped = []
     for st in init.body:
-        s = src(st)
+        trial = g.clone()
+        tloc = dict(loc)
         try:
-            if isinstance(st, ast.Assign) and all(isinstance(t, ast.Name) for t in st.targets):
-                ex.stmt(st, g, loc)
-            elif any(k in s for k in ("_my_data", "_dataIdx", "_buffIdx", "_saveIdx", "notSaved", "hasSaveMemory",
-                                       "_current_layout_name", "self._layout ", "self._layout=", "self._f", "_layout_manager")):
-                ex.stmt(st, g, loc)
+            ex.stmt(st, trial, tloc)
         except Refused:
             raise ModelError("assert failed in __init__")
-    for k in ("_dataIdx", "_buffIdx", "_saveIdx", "_f", "_layout", "_current_layout_name", "hasSaveMemory"):
+        except (ModelError, AttrErr) as e:
+            skipped.append((st, str(e)))
+            continue
+        g.a, g.contents, g.nbuf, g.alloc = trial.a, trial.contents, trial.nbuf, trial.alloc
+        loc.clear()
+        loc.update(tloc)
+    for k in ("_f", "_layout", "hasSaveMemory"):
         if k not in g.a:
-            raise ModelError(f"__init__ does not define self.{k}")
+            why = [w for st, w in skipped if f"self.{k}" in src(st)]
+            raise ModelError(f"__init__ does not define self.{k}" + (f" in a way the model reads ({why[0]})" if why else ""))
+    # attributes the typestate methods read must not come from a skipped statement
+    used = set()
+    for nm in ("setLayout", "saveGridValues", "freeGridSave", "restoreGridValues", "currentLayout"):
+        m = ex.methods.get(nm)
+        if m is not None:
+            used |= {n.attr for n in ast.walk(m) if isinstance(n, ast.Attribute) and isinstance(n.value, ast.Name) and n.value.id == "self"}
+    for st, w in skipped:
+        defs = {t.attr for n in ast.walk(st) if isinstance(n, (ast.Assign, ast.AugAssign)) for t in (n.targets if isinstance(n, ast.Assign) else [n.target])
+                for t in ast.walk(t) if isinstance(t, ast.Attribute) and isinstance(t.value, ast.Name) and t.value.id == "self"}
+        lost = sorted((defs & used) - set(g.a))
+        if lost:
+            raise ModelError(f"`{src(st)[:60]}` defines self.{lost[0]}, which the typestate methods use, in a way the model does not read ({w})")
+
+
+_ALLOCS = ("np.empty", "np.zeros", "numpy.empty", "numpy.zeros", "np.ones", "np.empty_like", "np.zeros_like")
 
 
 def alloc_agreement(chk, mod):
-    """all buffers of one grid have the same size and dtype (sibling agreement) and the size the layout manager advertises"""
+    """all buffers of one grid have the same size and dtype (sibling agreement) and the size the layout manager advertises.  The
+    buffers are the arrays the constructor allocates and keeps in attributes - as a list (`self._my_data = [...]`) or one by one
+    (`self._data = np.empty(...)`): all allocation sites are compared with one another, whatever the container."""
     import re
     init = mod.func("Grid.__init__")
     env = inline_locals(init)
@@ -530,42 +688,61 @@ def alloc_agreement(chk, mod):
     for a in ast.walk(init):
         if isinstance(a, ast.Assign) and src(a.targets[0]) == "self._layout_manager" and isinstance(a.value, ast.Name):
             mgr.add(a.value.id)
-    n = 0
+
+    def is_alloc(e):
+        return isinstance(e, ast.Call) and src(e.func) in _ALLOCS and e.args
+
+    def sig(e):
+        size = src(e.args[0])
+        dt = [src(k.value) for k in e.keywords if k.arg == "dtype"]
+        dt = dt[0] if dt else (src(e.args[1]) if len(e.args) > 1 else "<default float>")
+        return (size, dt)
+    groups = []            # (statement, [signatures], unknown?) per attribute assignment that stores buffers
     for a in ast.walk(init):
-        if not (isinstance(a, ast.Assign) and src(a.targets[0]) == "self._my_data"):
+        if not (isinstance(a, ast.Assign) and len(a.targets) == 1 and isinstance(a.targets[0], ast.Attribute)
+                and isinstance(a.targets[0].value, ast.Name) and a.targets[0].value.id == "self"):
             continue
-        n += 1
         v = expand(a.value, env) if isinstance(a.value, ast.Name) else a.value
-        elts = None
-        if isinstance(v, (ast.List, ast.Tuple)):
-            elts = v.elts
-        elif isinstance(v, ast.ListComp) and len(v.generators) == 1 and not v.generators[0].ifs:
-            elts = [v.elt]            # every buffer is the same expression by construction
-        elif isinstance(v, ast.BinOp) and isinstance(v.op, ast.Mult) and any(isinstance(x, ast.List) for x in (v.left, v.right)):
-            chk.ob(rule, a, "self._my_data = [...] * n", False,
+        if isinstance(v, ast.BinOp) and isinstance(v.op, ast.Mult) and any(isinstance(x, ast.List) and any(is_alloc(expand(y, env)) for y in x.elts)
+                                                                           for x in (v.left, v.right)):
+            chk.ob(rule, a, f"{src(a.targets[0])} = [...] * n", False,
                    f"`{src(a.value)[:70]}` repeats ONE array object: the rotating buffers alias each other, a layout change or a save overwrites "
                    "the data it reads", file=U.GRID, func="Grid.__init__")
             continue
+        elts = None
+        if isinstance(v, (ast.List, ast.Tuple)):
+            elts = list(v.elts)
+        elif isinstance(v, ast.ListComp) and len(v.generators) == 1 and not v.generators[0].ifs:
+            elts = [v.elt]            # every buffer is the same expression by construction
+        elif is_alloc(v):
+            elts = [v]
         if elts is None:
-            chk.ob(rule, a, "self._my_data = ...", None, f"allocation `{src(a.value)[:60]}` not recognised", file=U.GRID, func="Grid.__init__")
+            if src(a.targets[0]) == "self._my_data":
+                chk.ob(rule, a, "self._my_data = ...", None, f"allocation `{src(a.value)[:60]}` not recognised", file=U.GRID, func="Grid.__init__")
             continue
-        sigs, unknown = [], False
-        for el in elts:
-            e = expand(el, env)
-            if isinstance(e, ast.Call) and src(e.func) in ("np.empty", "np.zeros", "numpy.empty", "numpy.zeros", "np.ones") and e.args:
-                size = src(e.args[0])
-                dt = [src(k.value) for k in e.keywords if k.arg == "dtype"]
-                dt = dt[0] if dt else (src(e.args[1]) if len(e.args) > 1 else "<default float>")
-                sigs.append((size, dt))
-            else:
-                sigs.append(("?", src(e)))
-                unknown = True
-        what = f"self._my_data = [...{len(sigs)} buffer expression(s)]"
+        xs = [expand(el, env) for el in elts]
+        if not any(is_alloc(x) for x in xs):
+            continue
+        groups.append((a, [sig(x) if is_alloc(x) else ("?", src(x)) for x in xs], any(not is_alloc(x) for x in xs)))
+    if not groups:
+        chk.ob(rule, init, "buffers allocated by Grid.__init__", None,
+               "no allocation of the grid's buffers (np.empty/np.zeros stored in an attribute) found in Grid.__init__", file=U.GRID, func="Grid.__init__")
+        return
+    # buffers that are alternatives of one another (arms of an `if`) or siblings (several attributes): all must agree
+    lists = [g_ for g_ in groups if isinstance(g_[0].value, (ast.List, ast.Tuple, ast.ListComp)) or
+             isinstance(expand(g_[0].value, env) if isinstance(g_[0].value, ast.Name) else g_[0].value, (ast.List, ast.Tuple, ast.ListComp))]
+    units = [[g_] for g_ in lists] if lists else [groups]
+    for unit in units:
+        sigs = [s_ for g_ in unit for s_ in g_[1]]
+        unknown = any(g_[2] for g_ in unit)
+        node = unit[0][0]
+        what = (f"{src(node.targets[0])} = [...{len(sigs)} buffer expression(s)]" if len(unit) == 1 and lists else
+                f"{', '.join(src(g_[0].targets[0]) for g_ in unit)}: {len(sigs)} buffer allocation(s)")
         ok, bad = None, None
         if not unknown:
             if len(set(sigs)) != 1:
-                bad = (f"buffers differ in size or dtype: {sigs} - after an index rotation the field would live in an array of another type/size "
-                       "(a float buffer drops the imaginary part of a complex field)")
+                bad = (f"buffers differ in size or dtype: {sorted(set(sigs))} - after the roles are exchanged the field would live in an array of another "
+                       "type/size (a float buffer drops the imaginary part of a complex field)")
             elif sigs[0][1] == "<default float>":
                 bad = "the buffers are allocated without the grid's dtype: a complex grid is stored in float64 arrays"
             elif sigs[0][0] in {m + ".bufferSize" for m in mgr}:
@@ -573,10 +750,8 @@ def alloc_agreement(chk, mod):
             elif re.search(r"\.size$|max_block_size$|np\.prod\(.*shape\)$", sigs[0][0]):
                 bad = (f"the buffers hold `{sigs[0][0]}` elements: the transposes need arrays of the manager's bufferSize (padded exchange blocks x "
                        "communicator size), which is larger than a local block for uneven distributions")
-        chk.pat(rule, a, what, ok, "all rotating buffers are allocated with the manager's bufferSize and the grid's dtype", bad,
+        chk.pat(rule, node, what, ok, "all rotating buffers are allocated with the manager's bufferSize and the grid's dtype", bad,
                 file=U.GRID, func="Grid.__init__")
-    if n < 1:
-        chk.ob(rule, init, "self._my_data = ...", None, "no `_my_data` allocation site found in Grid.__init__", file=U.GRID, func="Grid.__init__")
 
 
 # --------------------------------------------------------------------------
